@@ -1,19 +1,39 @@
-(* C15: partition_mut places the pivot at its sorted rank. *)
-From Coq Require Import List Arith Lia Permutation Bool.
+(* C15: partition_mut places the pivot at its sorted rank.
+   For every non-empty array and in-range pivot position the model of partition_mut
+   returns Ok (never Panic, never OutOfFuel), the returned k is the number of elements
+   strictly smaller than the pivot value, position k holds the pivot value, everything
+   before k is strictly smaller, everything after is greater or equal, and the array is a
+   permutation of the input. *)
+From Coq Require Import List Arith ZArith Lia Permutation Bool.
 Import ListNotations.
-From NS Require Import Base.Res Base.ArrLemmas Sort.Partition Sort.PartitionProofs.
+From NS Require Import Base.Res Base.ArrLemmas Sort.Partition Sort.PartitionProofs Sort.PartitionRank Sort.Pinned.
 
-Theorem C15_partition_spec :
+Theorem C15_partition_rank :
   forall (A : Type) (leb : A -> A -> bool),
+  (forall x y, leb x y = true \/ leb y x = true) ->
   forall a p, p < length a ->
   exists k a' pv, partition A leb a p = Ok (k, a') /\ nth_error a p = Some pv /\
+    k = countb A (fun x => ltb A leb x pv) a /\
     Permutation a a' /\ length a' = length a /\ k < length a /\
     nth_error a' k = Some pv /\
-    lt_seg A leb a' pv 0 k /\ ge_seg A leb a' pv (k + 1) (length a).
-Proof. exact partition_spec. Qed.
-Print Assumptions C15_partition_spec.
+    (forall m x, m < k -> nth_error a' m = Some x -> ltb A leb x pv = true) /\
+    (forall m x, k < m -> nth_error a' m = Some x -> leb pv x = true).
+Proof. exact partition_rank. Qed.
+Print Assumptions C15_partition_rank.
 
+(* out-of-range pivot positions are rejected (shared with C16) *)
 Theorem C15_partition_oob :
   forall (A : Type) (leb : A -> A -> bool) a p, length a <= p -> partition A leb a p = Panic.
 Proof. exact partition_oob. Qed.
 Print Assumptions C15_partition_oob.
+
+(* non-vacuity: the crate's documentation example, and the single-element array of defect D1 *)
+Example C15_doc_example :
+  partition Z Z.leb [3;1;4;5;2]%Z 2 = Ok (3, [2;1;3;4;5]%Z) /\ partition Z Z.leb [5%Z] 0 = Ok (0, [5%Z]).
+Proof. split; vm_compute; reflexivity. Qed.
+Print Assumptions C15_doc_example.
+
+(* the pinned pre-repair code fails exactly there *)
+Theorem C15_v0_refuted : partition_v0 Z Z.leb [5%Z] 0 = Panic.
+Proof. exact partition_v0_refuted. Qed.
+Print Assumptions C15_v0_refuted.
